@@ -7,7 +7,7 @@ set_option maxHeartbeats 16000000 in
 theorem DUse.client_flush2 (s0 : Nat) : ∀ a ∈ clientFlush s0 2, DUse.Kept a := by
   intro a ha rt hT hg h s'
   all_goals (
-    have tS := (hT s').start_src; have tK := (hT s').start_snk; have tJ := (hT s').joined_snk; have tE := (hT s').after_err_stop; have tV := (hT s').start_valid
+    have tS := (hT s').start_src; have tJs := (hT s').joined_src; have tK := (hT s').start_snk; have tJ := (hT s').joined_snk; have tE := (hT s').after_err_stop; have tV := (hT s').start_valid
     have hs8 := stage_le rt.client.pc s'
     have hch := clHolds0_stop rt.client.pc s'
     have hdef : ¬ s' < rt.streams.length → rt.streams.getD s' {} = {} := by
@@ -21,7 +21,7 @@ theorem DUse.client_flush2 (s0 : Nat) : ∀ a ∈ clientFlush s0 2, DUse.Kept a 
     all_goals (try (simp at hg; done))
     all_goals (repeat' split)
     all_goals (intro he hm)
-    all_goals (first | (cases hm; done) | (obtain ⟨k1, k2, k3, k4, k5, k6, k7, k8, k9, k10, k11, k12, k13⟩ := h _ he hm))
+    all_goals (first | (cases hm; done) | (obtain ⟨k1, k2, k3, k4, k5, k6, k7, k8, k9, k10, k11, k12, k13, k14⟩ := h _ he hm))
     all_goals (
       have hn1 := nrd_pos k3
       have hrm0 := cv_rmap0 k1 hn1
